@@ -1,6 +1,6 @@
 //! Assemble program text with given options.
 //! line:   A <TAB> budget <TAB> static(0|1) <TAB> matching(0|1) <TAB> main-hex [<TAB> name=hex;name=hex...]
-//! answer: OK <TAB> bits(0/1 string) <TAB> iterations <TAB> symbols(hex of format_default)
+//! answer: OK <TAB> bits(0/1 string) <TAB> iterations <TAB> symbols(hex of format_default) <TAB> name=hexvalue:size;...
 //!       | ERR <TAB> number of top-level error messages  | PANIC | INCONSISTENT <TAB> detail
 use customasm::*;
 use vh::*;
@@ -39,8 +39,12 @@ fn main() {
                     for i in 0..o.len() {
                         bits.push(if o.read_bit(i) { '1' } else { '0' });
                     }
-                    format!("OK\t{}\t{}\t{}", bits, a.iterations_taken.unwrap_or(0),
-                        hex(&d.symbols.format_default(d, fd)))
+                    // fifth field: every emitted integer symbol with its size: name=hexvalue:size|-
+                    let sized = d.symbols.format(d, fd, &mut |res: &mut String, _decl, name: &str, bigint: &util::BigInt| {
+                        res.push_str(&format!("{}={:x}:{};", name, bigint, bigint.size.map_or("-".to_string(), |s| s.to_string())));
+                    });
+                    format!("OK\t{}\t{}\t{}\t{}", bits, a.iterations_taken.unwrap_or(0),
+                        hex(&d.symbols.format_default(d, fd)), sized)
                 }
                 (None, true, true) => format!("ERR\t{}", report.len()),
                 (o, e, ae) => format!("INCONSISTENT\toutput={} has_errors={} error={}", o.is_some(), e, ae),
